@@ -1,8 +1,8 @@
 ENGINES = [
  dict(name="vsched", path="engine/vsched/", serves_properties=["C05", "C10"],
       kind_free_text="controlled scheduler (libc interposition of pthread create/join/exit/mutex/cond in the harness executable, or LD_PRELOAD for unmodified executables; futex baton hand-off) + stateless preemption-bounded DFS explorer (engine/vsched/explore.h), one forked child per execution; a schedule is a choice sequence, replayed twice before any failure is believed; forced thread-id schedules for model conformance"),
- dict(name="tlc", path="models/", serves_properties=["C05"],
-      kind_free_text="TLA+ model (one action per scheduler segment) checked exhaustively by TLC without preemption bound; state graph dumped and bound to the implementation by two-way trace conformance (harness/C05_model.py)"),
+ dict(name="tlc", path="models/", serves_properties=["C05", "C10"],
+      kind_free_text="TLA+ model (one action per scheduler segment) checked exhaustively by TLC without preemption bound; state graph dumped and bound to the implementation by two-way trace conformance (harness/C05_model.py on models/CsgRing.tla, harness/C10_model.py on models/JobFile.tla)"),
  dict(name="bsx", path="harness/", serves_properties=["C01", "C02", "C03", "C04", "C06", "C07", "C08", "C09", "C11", "C12", "C13", "C14", "C15", "C16", "C17", "C18", "C19", "C20"],
       kind_free_text="bounded-scope exhaustive enumeration of inputs / explicit-state search over operation histories of the real code against a boring reference model or metamorphic relation (C++ harnesses linked to or compiled from the source tree, Python harnesses driving the built executables and scripts); sharded, failures confirmed by single-case replay"),
 ]
